@@ -1530,6 +1530,9 @@ func checkEquality(v1, v2 reflect.Value) bool {
 }
 
 func isTrue(v reflect.Value) bool {
+	// a value that arrives wrapped in an interface (an element of a []interface{} bound to '.')
+	// is judged by what it holds: a non-nil interface holding false, 0 or "" is still falsy
+	v = indirectInterface(v)
 	return v.IsValid() && !v.IsZero()
 }
 
